@@ -148,5 +148,23 @@ CHECKS["C03"] = dict(
     technique="TLA+ iterator-schedule model checked with TLC; TLC-enumerated schedules replayed step by step on real iterators; as-implemented model used for finding attribution",
 )
 
+CHECKS["C08"] = dict(
+    engine="RuleTree",
+    category="model_checking",
+    text=("RuleTree.tla: the lexical reading of nested with-blocks (Expected: refinement = exception, alternative = else-if "
+          "sibling in written order, next_rule = additional) against the node graph that refinement() / alternative_or_next() "
+          "build by re-parenting plus the selector evaluation of conclusion_selector.py (ImplFire), on the complete world of "
+          "the branch conditions. TLC checks Agree on the 31 shapes the implementation handles and produces counter-examples "
+          "on the full program space (the witnesses of the open finding). All 157 programs with <= 3 branches (thorough: 1 291 "
+          "with <= 4) are built with real nested with-blocks and evaluated in two domain orders; per element the inferred "
+          "conclusion types are compared with Expected; a deviation counts as the recorded finding only when it equals ImplFire "
+          "for every element (plus one documented signature fallback)."),
+    design_ref="DESIGN.md §4 C08",
+    note=("Trusted: TLC, the transcription of rule.py / conclusion_selector.py into RuleTree.tla (validated element by element "
+          "against the real output). Only single-variable rule trees have a reference; trees whose branches introduce further "
+          "variables are not covered (their output is order dependent on the unchanged tree)."),
+    technique="TLA+ lexical reference + as-implemented node-graph model enumerated with TLC; every program replayed on real with-block rule trees",
+)
+
 NOT_YET = "check not built yet in this build round (specified in DESIGN.md §4; will be claimed when its TLA+ module and binding exist)"
 NOT_APPLICABLE = {}
